@@ -62,18 +62,20 @@ CompleteSym(S) == IsDSym(S) /\ \A i \in 0..(S.dim-1), d \in Chambers(S) : V(S,i,
 
 (* ---------------------------------------------------------------- orientation *)
 \* the chamber graph restricted to non-loop edges is bipartite (weakly oriented); oriented = also loopless
-Edges(S) == {<<d, Op(S,i,d)>> : i \in Idx(S), d \in Chambers(S)} \ ({<<d, d>> : d \in Chambers(S)} \cup {<<d, 0>> : d \in Chambers(S)})
-RECURSIVE Colour(_,_,_)
-\* 2-colouring by BFS over all components: col is a function on the coloured chambers
-Colour(S, frontier, col) ==
+\* breadth-first levels over all components: <<chambers at even distance from their component's
+\* least chamber, chambers at odd distance>>
+RECURSIVE Parity(_,_,_,_,_)
+Parity(S, frontier, seen, par, acc) ==
    IF frontier = {} THEN
-      (IF DOMAIN col = Chambers(S) THEN col
-       ELSE LET d == Least(Chambers(S) \ DOMAIN col) IN Colour(S, {d}, TLCEval([x \in (DOMAIN col) \cup {d} |-> IF x = d THEN 1 ELSE col[x]])))
-   ELSE LET nxt == {e[2] : e \in {x \in Edges(S) : x[1] \in frontier}} \ DOMAIN col
-            par(w) == CHOOSE v \in frontier : <<v, w>> \in Edges(S)
-        IN Colour(S, nxt, TLCEval([x \in (DOMAIN col) \cup nxt |-> IF x \in DOMAIN col THEN col[x] ELSE 0 - col[par(x)]]))
-TwoColouring(S) == Colour(S, {}, <<>>)
-WeaklyOriented(S) == LET c == TwoColouring(S) IN \A e \in Edges(S) : c[e[1]] # c[e[2]]
+      (IF seen = Chambers(S) THEN acc
+       ELSE LET d == Least(Chambers(S) \ seen) IN Parity(S, {d}, seen \cup {d}, 0, <<acc[1] \cup {d}, acc[2]>>))
+   ELSE LET nxt == ({Op(S,i,d) : i \in Idx(S), d \in frontier} \ {0}) \ seen
+        IN Parity(S, nxt, seen \cup nxt, 1 - par,
+                  IF par = 0 THEN <<acc[1], acc[2] \cup nxt>> ELSE <<acc[1] \cup nxt, acc[2]>>)
+\* bipartite: every non-loop edge joins chambers of different parity (a graph is bipartite iff its
+\* breadth-first levels 2-colour it)
+WeaklyOriented(S) == LET c == Parity(S, {}, {}, 0, <<{}, {}>>) IN
+   \A d \in Chambers(S), i \in Idx(S) : (Op(S,i,d) # 0 /\ Op(S,i,d) # d) => ((d \in c[1]) # (Op(S,i,d) \in c[1]))
 Oriented(S) == Loopless(S) /\ WeaklyOriented(S)
 
 (* ---------------------------------------------------------------- morphisms *)
